@@ -28,7 +28,8 @@ def lookup_and_evaluate(arg):
     out = {}
     for rendering in ("base_link", "map"):
         mgr = pipeline.manager_for(_cfg(), "map" if rendering == "map" else "base_link", task="detection")
-        crit = CriticalObjectFilterConfig(mgr.evaluator_config, TARGETS, max_x_position_list=[95.0, 95.0], max_y_position_list=[95.0, 95.0])
+        # a critical region whose border runs through the scene, so that range decisions are sensitive to the ego pose
+        crit = CriticalObjectFilterConfig(mgr.evaluator_config, TARGETS, max_x_position_list=[18.0, 18.0], max_y_position_list=[22.0, 22.0])
         pfc = PerceptionPassFailConfig(mgr.evaluator_config, TARGETS, [2.0, 2.0])
 
         def ego_at(t):
@@ -114,8 +115,8 @@ def run(ctx: Ctx):
             if x != y:
                 ctx.violation("lookup-then-evaluate:ego-vs-map:%s" % ("interpolated" if interp else "exact"),
                               "query %d (%s): ego-frame evaluation %s, map-frame evaluation %s" % (sc["queries"][qi], "interpolated" if interp else "exact", x, y), sc)
-            elif isinstance(x, tuple) and x[0] != sc["nobj"]:
-                ctx.violation("lookup-then-evaluate:not-all-matched", "query %d: %d objects 0.3 m from their ground truth, result %s" % (sc["queries"][qi], sc["nobj"], x), sc)
+            elif isinstance(x, tuple) and x[0] + x[2] > sc["nobj"]:
+                ctx.violation("lookup-then-evaluate:too-many-ground-truths", "query %d: %d objects in the scene, result %s" % (sc["queries"][qi], sc["nobj"], x), sc)
     ctx.extra["lookup_then_evaluate_scenarios"] = len(scen)
     ctx.rule = (
         "Manager.tla describes a frame in ego-relative coordinates only. Every lattice scene TLC enumerates (families as in C03) is executed by the "
